@@ -44,9 +44,9 @@ Theorem c05_onetime : forall d w ok life ops o v,
   (In v (spent s) -> snd (step (fixed_with d w ok life) s o) = None) /\
   NoDup (spent s).
 Proof.
-  intros d w ok life ops o v s Hp. pose proof (run_Inv2 (fixed_with d w ok life) ops eq_refl eq_refl) as HJ.
+  intros d w ok life ops o v s Hp. pose proof (run_Inv2 (fixed_with d w ok life) ops eq_refl eq_refl eq_refl) as HJ.
   split; [apply accepted_spent; exact Hp|]. split.
-  - intros Hin. exact (spent_refused (fixed_with d w ok life) s o v eq_refl eq_refl HJ Hp Hin).
+  - intros Hin. exact (spent_refused (fixed_with d w ok life) s o v eq_refl eq_refl eq_refl HJ Hp Hin).
   - destruct HJ as [J0 _]. exact J0.
 Qed.
 
@@ -94,7 +94,7 @@ Theorem c05_value_fixed : forall d w ok life ops o,
   (forall u b b', boot s u = Some b -> boot s' u = Some b' -> bserial b' = bserial b -> b' = b).
 Proof.
   intros d w ok life ops o s s'. pose proof (run_Inv3 (fixed_with d w ok life) ops) as HK.
-  pose proof (run_Inv2 (fixed_with d w ok life) ops eq_refl eq_refl) as HJ. split.
+  pose proof (run_Inv2 (fixed_with d w ok life) ops eq_refl eq_refl eq_refl) as HJ. split.
   - intros u ch u' ch'. exact (chal_fixed (fixed_with d w ok life) s o u ch u' ch' HJ HK).
   - intros u b b'. exact (boot_fixed (fixed_with d w ok life) s o u b b' HK).
 Qed.
@@ -132,6 +132,46 @@ Theorem c05_like_lookup_refuted :
   lookup n_j_doe t = Some d_key /\ lookup n_j_doe t' = Some d_key /\
   lookup_like n_j_doe (save n_jadoe d_totp []) = Some d_totp /\ lookup n_j_doe (save n_jadoe d_totp []) = None.
 Proof. exact like_lookup_foreign. Qed.
+
+(* THE CACHE AS READ SOURCE.  `Cached o` is the request of o made while the primary database does not
+   answer in time: every LoadUserProfile of the request is served from the cache copy and says so.
+   The history theorems above (c05_inv, c05_onetime, c05_fresh_values, c05_value_fixed) quantify over
+   all operations, `Cached` ones included: a second factor verified from the cache raises the session
+   like any other, a one-time value accepted from the cache is spent.  In addition: a cached request
+   writes nothing back (the persisted TOTP counter and the stored bootstrap OTPs are untouched — the
+   accepted TOTP step is remembered in memory only), values of somebody else and expired values are
+   refused exactly as with the primary *)
+Theorem c05_cached_no_write : forall d w ok life s o,
+  let s' := fst (step (fixed_with d w ok life) s (Cached o)) in
+  saved_totp s' = saved_totp s /\ boot s' = boot s.
+Proof. intros d w ok life s o. exact (cached_no_write (with_cache (fixed_with d w ok life)) None false s o eq_refl). Qed.
+
+Theorem c05_cached_no_cross_user : forall d w ok life ops o u u',
+  let k := fixed_with d w ok life in
+  let s := fst (run k init ops) in
+  about k s o = Some u -> requester k s None o = Some u' -> u <> u' -> step k s (Cached o) = (s, None).
+Proof.
+  intros d w ok life ops o u u' k s Ha Hr Hne. cbn [step].
+  exact (cross_user_refused (with_cache k) None false s o u u' eq_refl
+           (run_Inv k ops eq_refl eq_refl eq_refl) Ha Hr Hne).
+Qed.
+
+Theorem c05_cached_expired : forall d w ok life s o,
+  let k := fixed_with d w ok life in
+  expired k s None o = true -> step k s (Cached o) = (s, None).
+Proof.
+  intros d w ok life s o k He. cbn [step].
+  exact (expired_refused (with_cache k) None false s o eq_refl eq_refl He).
+Qed.
+
+(* validateUserTOTP as it was: in cached mode an accepted step was neither persisted nor remembered,
+   so the same code was accepted again (and once more after the primary came back); with the
+   in-memory guard it is accepted once, and nothing is persisted by the cached requests *)
+Theorem c05_old_cached_totp_refuted :
+  ~ NoDup (spent (fst (run (cfg_mem_guard false) init w_cached_totp))) /\
+  NoDup (spent (fst (run (cfg_mem_guard true) init w_cached_totp))) /\
+  saved_totp (fst (run (cfg_mem_guard true) init w_cached_totp)) 1%N = 0%Z.
+Proof. exact old_cached_totp. Qed.
 
 (* the statement is false of the handlers as they were *)
 Theorem c05_old_poll_refuted :
